@@ -106,6 +106,8 @@ stream_decode(void *coder_ptr, const lzma_allocator *allocator,
 {
 	lzma_stream_coder *coder = coder_ptr;
 
+	VERIF_VISIT(VERIF_D_STREAM_SEQ, coder->sequence);
+
 	// When decoding the actual Block, it may be able to produce more
 	// output even if we don't give it any new input.
 	while (true)
